@@ -75,24 +75,28 @@ int main(void)
 {
     static const int presets[] = { 0, 1, INT_MAX - 2, INT_MAX - 1, INT_MAX, INT_MIN, -1 };
     next_backend_desc = presets[PRESET];
-    for (int t = 0; t < DEPTH; t++) {
-        int op = vin_range(0, 3), s = vin_range(0, SLOTS - 1);
-        if (op == 0 && !live[s]) {
+    /* history enumerated by the driver: -DSEQ=op,op,...  (0..2 create slot, 10..12 destroy slot,
+     * 20..22 use slot, 30/31 failing create: unsupported shape / dlopen failure); data symbolic */
+    static const int seq[] = { SEQ };
+    for (unsigned t = 0; t < sizeof seq / sizeof seq[0]; t++) {
+        int code = seq[t], op = code / 10, s = code % 10;
+        if (op == 0) {
+            CHECK(!live[s], "harness: create on a live slot");
             int d = create(s, 0);
             CHECK(d > 0, "create returns a positive descriptor");
             for (int i = 0; i < SLOTS; i++) if (live[i]) CHECK(dsc[i] != d, "new descriptor equals a live one");
             live[s] = 1; dsc[s] = d;
-        } else if (op == 1 && live[s]) {
+        } else if (op == 1) {
+            CHECK(live[s], "harness: destroy on a dead slot");
             CHECK(liberasurecode_instance_destroy(dsc[s]) == 0, "destroy of a live instance");
             live[s] = 0;
             dead_refused(dsc[s]);
-        } else if (op == 2 && live[s]) {
+        } else if (op == 2) {
+            CHECK(live[s], "harness: use of a dead slot");
             use(s);
-        } else if (op == 3) {
-            int before = next_backend_desc;
-            int d = create(s, 1 + (s & 1));
+        } else {
+            int d = create(s, 1 + s);
             CHECK(d < 0, "failed create returns a negative code");
-            /* nothing left behind: every live instance still resolves, no new one appeared */
             for (int q = 0; q < SLOTS; q++) if (live[q]) CHECK(liberasurecode_backend_instance_get_by_desc(dsc[q]) != NULL, "live instance lost by a failed create");
         }
         CHECK((log_table != NULL) == (live[0] || live[1]), "GF tables must exist exactly while an RS instance is live");
